@@ -62,6 +62,9 @@ class LoopSpec:
         self.decreases = ast.parse(d['decreases'], mode='eval').body if d.get('decreases') else None
         self.modifies = d.get('modifies')   # optional explicit write set
         self.unroll = d.get('unroll', False)
+        # ghost code run at the beginning / end of every iteration (before the invariant is re-checked)
+        self.ghost_begin = [ast.parse(s).body for s in d.get('ghost_begin', [])]
+        self.ghost_end = [ast.parse(s).body for s in d.get('ghost_end', [])]
 
 
 class Schema:
